@@ -492,7 +492,7 @@ func collapse(v cty.Value) cty.Value {
 			return cty.EmptyTupleVal
 		case ty.IsCollectionType():
 			lo, hi := rng.LengthLowerBound(), rng.LengthUpperBound()
-			if lo != hi || lo > 16 {
+			if lo != hi || lo > 4096 {
 				return v
 			}
 			es := make([]cty.Value, lo)
